@@ -3,6 +3,8 @@
    Statements only; proofs are in SigP.AlertProofs / SigP.KvStoreProofs. *)
 From SigM Require Import Base Alert KvStore.
 From SigP Require Import BaseProofs AlertProofs KvStoreProofs.
+From SigG Require Import Gen.
+From SigP Require Import GenC20.
 
 (* ================= alert state ================= *)
 
@@ -233,3 +235,19 @@ Theorem C20_prefix_alias_shutdown_flush_refuted :
     ns_mem al (aabs (arun_prefix ops empty_astore) t i) <> ns_mem al (aspec_run ops (aabs empty_astore) t i).
 Proof. exact prefix_alias_shutdown_flush_refuted. Qed.
 Print Assumptions C20_prefix_alias_shutdown_flush_refuted.
+
+(* ==== the decision code itself, REGENERATED from the Go source on every run by gotrans (coq/gen/Gen.v) ==== *)
+Theorem C20_code_IsAlertStatePendingOrFiring_is_model : forall s : astate,
+  gen_IsAlertStatePendingOrFiring (zcode s) = pending_or_firing s.
+Proof. exact gen_IsAlertStatePendingOrFiring_is_model. Qed.
+Print Assumptions C20_code_IsAlertStatePendingOrFiring_is_model.
+
+(* shouldUpdateAlertStateToFiring, given what the history read returns (the newest N-1 evaluation rows), is
+   the model's should_fire for every window, interval, history and current outcome *)
+Theorem C20_code_shouldUpdateAlertStateToFiring_is_model : forall (window interval : N) (h : history) (cur : astate),
+  (0 < interval)%N -> (window < 2 ^ 63)%N -> (interval < 2 ^ 64)%N ->
+  gen_shouldUpdateAlertStateToFiring (Z.of_N interval) (Z.of_N window)
+      (hist_read (window / interval - 1) h) (zcode cur)
+  = should_fire window interval h cur.
+Proof. exact gen_shouldUpdateAlertStateToFiring_is_model. Qed.
+Print Assumptions C20_code_shouldUpdateAlertStateToFiring_is_model.
